@@ -526,7 +526,8 @@ fn extract_aggregate(tree: &mut ParserExpressionTree) -> (Option<ParserExpressio
     };
 
     match &mut tree.tree {
-        ParserExpressionTreeData::ColumnAccess(name) => (Some(ParserExpressionTreeData::ColumnAccess(name.clone())), true),
+        // A column next to the aggregate is not the aggregate: it stays where it is (and has no value when the wrapper is applied)
+        ParserExpressionTreeData::ColumnAccess(_) => (None, false),
         ParserExpressionTreeData::Call { name, arguments, distinct } => {
             let name_lowercase = name.to_lowercase();
             if AGGREGATE_FUNCTIONS.contains(&name_lowercase) {
